@@ -21,6 +21,7 @@ import (
 	"encoding/hex"
 	"encoding/json"
 	"fmt"
+	"io"
 	"os"
 	"os/exec"
 	"runtime/debug"
@@ -413,6 +414,8 @@ type stats struct {
 	maxLen                                                                     int
 	nameChecks                                                                 int64
 	mayReject                                                                  int64
+	ecdsaRepeatBuilds                                                          int64
+	ecdsaSigLens                                                               map[string]bool
 	sweepCases, sweepBuilds, sweepCross253, sweepCross65536, sweepCasesCrossed int64
 	nsBuild, nsRt, nsName, nsSeg                                               [3]int64 // by plan class: 0 full, 1 quick-2dev small, 2 large
 	evaluated                                                                  int64
@@ -420,7 +423,7 @@ type stats struct {
 
 var (
 	rep     *report.Reporter
-	st      = &stats{rejected: map[string]int{}, distinct: map[[16]byte]bool{}}
+	st      = &stats{rejected: map[string]int{}, distinct: map[[16]byte]bool{}, ecdsaSigLens: map[string]bool{}}
 	samples report.Samples
 )
 
@@ -460,6 +463,9 @@ func addV(d *pktgen.Desc, clause, key, detail string, replay map[string]any) {
 		detail = key + " :: " + detail
 		key = "packet whose outer length field gets shorter after signing (signature shorter than the signer's estimate) " +
 			map[string]string{"C03.wf": "is not a well-formed TLV", "C03.rt": "does not decode back to its input"}[clause]
+	}
+	if d.Interest && (d.PaySize == 0 || d.PaySize == -2) && strings.Contains(key, "decode fails") {
+		key += " [present-but-empty parameters]"
 	}
 	if d.ManyEmpty() && strings.Contains(key, "decode fails") {
 		key += " [a name with 4+ zero-length components]"
@@ -527,6 +533,13 @@ func evalDesc(idx int64, label string, d pktgen.Desc, depth int, thorough, light
 	replay := map[string]any{"case": label, "desc": d.String(), "case_index": idx}
 	if b.Panic != "" {
 		addV(&d, "C03.wf", "packet API panics: "+b.Panic, "building "+d.String()+" panicked: "+b.Panic, replay)
+		return b
+	}
+	if b.Err != nil && b.Rec != nil && b.Rec.Asked && len(b.Rec.SigVal) > int(b.Rec.Inner.EstimateSize()) {
+		// not a free choice of the API: the shipped signer returned a signature longer than the
+		// size it announced itself, so a packet it can sign is not built
+		addV(&d, "C03.wf", fmt.Sprintf("a shipped signer's signature is longer than its own EstimateSize, the packet API refuses the packet (%s signer)", b.SignerSp.Name),
+			fmt.Sprintf("%s: EstimateSize()=%d, ComputeSigValue returned %d bytes: %v", d.String(), b.Rec.Inner.EstimateSize(), len(b.Rec.SigVal), b.Err), replay)
 		return b
 	}
 	if b.Err != nil {
@@ -720,6 +733,45 @@ func runSweep(i int64, sc pktgen.SweepCase, thorough bool) {
 	if crossed {
 		atomic.AddInt64(&st.sweepCasesCrossed, 1)
 	}
+}
+
+// runEcdsaRepeat: ECDSA signatures are randomised and their DER length varies from call to call, so
+// one build says little about "any packet this signer signs". Every ECDSA key of the catalog
+// (P-224, P-256 x2, P-384, P-521) signs every base shape n times; the API must build every one of
+// them (a signature longer than the signer's own estimate is a violation, see evalDesc), the
+// packet must be well-formed, decode to its input and its signature must verify. This pass is a
+// repetition driven by crypto/rand (the signers hard-wire rand.Reader): it is not an enumeration.
+func runEcdsaRepeat(i int64, label string, d pktgen.Desc, n int, thorough bool) {
+	idx := int64(1)<<41 + i
+	lens := map[int]bool{}
+	for try := 0; try < n; try++ {
+		b := evalDesc(idx, label, d, 2, thorough, true)
+		atomic.AddInt64(&st.ecdsaRepeatBuilds, 1)
+		if b.Err != nil || b.Panic != "" {
+			continue
+		}
+		lens[len(b.Rec.SigVal)] = true
+		ok := false
+		func() {
+			defer func() { recover() }()
+			if d.Interest {
+				if p, cov, err := (spec.Spec{}).ReadInterest(enc.NewBufferReader(b.Bytes)); err == nil {
+					ok = b.SignerSp.Validate(cov, p.Signature())
+				}
+			} else if p, cov, err := (spec.Spec{}).ReadData(enc.NewBufferReader(b.Bytes)); err == nil {
+				ok = b.SignerSp.Validate(cov, p.Signature())
+			}
+		}()
+		if !ok {
+			addV(&d, "C03.rt", "a packet signed by a shipped ECDSA signer decodes but its signature value does not verify ("+b.SignerSp.Name+")", d.String(),
+				map[string]any{"case": label, "desc": d.String(), "case_index": idx, "bytes": hexCap(b.Bytes)})
+		}
+	}
+	st.mu.Lock()
+	for l := range lens {
+		st.ecdsaSigLens[fmt.Sprintf("%s: %d bytes", pktgen.Signers()[d.Signer].Name, l)] = true
+	}
+	st.mu.Unlock()
 }
 
 func runSeg(b *pktgen.Built, root *pktgen.Node, d *pktgen.Desc, plan segPlan, ref *sink, replay map[string]any) {
@@ -976,6 +1028,54 @@ func replayMain(sp *pktgen.Space, file string) {
 	report.Fatal("replay %s: case %q is not in the enumerated space", file, r.Replay.Case)
 }
 
+// tailBuf keeps the last 64 KiB written to it.
+type tailBuf struct{ b []byte }
+
+func (t *tailBuf) Write(p []byte) (int, error) {
+	t.b = append(t.b, p...)
+	if len(t.b) > 1<<16 {
+		t.b = t.b[len(t.b)-1<<16:]
+	}
+	return len(p), nil
+}
+func (t *tailBuf) String() string { return string(t.b) }
+
+func lastLines(s string, n int) string {
+	l := strings.Split(strings.TrimRight(s, "\n"), "\n")
+	if len(l) > n {
+		l = l[len(l)-n:]
+	}
+	return strings.Join(l, " / ")
+}
+
+// crashSite returns "<fatal line> @ <first repository function in the trace>" if the stderr of a
+// dead worker shows a Go runtime crash with a repository frame, else "".
+func crashSite(stderr string) string {
+	first := ""
+	for _, l := range strings.Split(stderr, "\n") {
+		if first == "" && (strings.HasPrefix(l, "fatal error:") || strings.HasPrefix(l, "panic:") || strings.HasPrefix(l, "runtime: ")) {
+			first = pktgen.NormPanic(l)
+		}
+		if first != "" && strings.HasPrefix(l, "github.com/named-data/ndnd/") {
+			f := strings.TrimPrefix(l, "github.com/named-data/ndnd/")
+			if k := strings.LastIndex(f, "("); k > 0 {
+				f = f[:k]
+			}
+			return first + " @ " + f
+		}
+	}
+	return ""
+}
+
+func keysOf(m map[string]bool) []string {
+	var o []string
+	for k := range m {
+		o = append(o, k)
+	}
+	sort.Strings(o)
+	return o
+}
+
 func secs(a [3]int64) (o [3]float64) {
 	for i := range a {
 		o[i] = float64(a[i]/1e7) / 100
@@ -1001,18 +1101,34 @@ func main() {
 	// Safety net: run the whole check under an address-space limit, so that a decoder that
 	// sizes an allocation by a mis-framed length cannot take the machine down.
 	if os.Getenv("C03_CHILD") == "" {
-		cmd := exec.Command("bash", "-c", `ulimit -v 16000000; exec "$0" "$@"`, os.Args[0])
-		cmd.Args = append(cmd.Args, os.Args[1:]...)
-		cmd.Env = append(os.Environ(), "C03_CHILD=1")
-		cmd.Stdout, cmd.Stderr = os.Stdout, os.Stderr
-		err := cmd.Run()
-		if err == nil {
-			os.Exit(0)
+		var tail string
+		for attempt := 1; attempt <= 2; attempt++ {
+			cmd := exec.Command("bash", "-c", `ulimit -v 16000000; exec "$0" "$@"`, os.Args[0])
+			cmd.Args = append(cmd.Args, os.Args[1:]...)
+			cmd.Env = append(os.Environ(), "C03_CHILD=1")
+			var errb tailBuf
+			cmd.Stdout, cmd.Stderr = os.Stdout, io.MultiWriter(os.Stderr, &errb)
+			err := cmd.Run()
+			if err == nil {
+				os.Exit(0)
+			}
+			if ee, ok := err.(*exec.ExitError); ok && ee.ExitCode() == 1 {
+				os.Exit(1)
+			}
+			tail = errb.String()
+			fmt.Printf("NOTE: C03 worker process ended abnormally (attempt %d): %v\n", attempt, err)
 		}
-		if ee, ok := err.(*exec.ExitError); ok && (ee.ExitCode() == 1) {
-			os.Exit(1)
+		// The worker died twice. If it died inside repository code while building/decoding the
+		// generated packets (fatal runtime error, unrecovered panic in another goroutine, stack
+		// overflow), that is a finding about the repository, not a broken check.
+		if site := crashSite(tail); site != "" {
+			rep := report.New("C03", "exploration")
+			rep.Add(report.Violation{Clause: "C03.rt", Key: "the process dies while building or decoding generated packets: " + site,
+				Detail: "the C03 worker process was killed by the Go runtime twice in a row; last lines of its stderr: " + lastLines(tail, 12),
+				Replay: map[string]any{"stderr_tail": lastLines(tail, 40)}})
+			rep.Finish(report.Coverage{"evaluations": 0, "distinct_nontrivial": 0, "rule": "worker died before reporting", "samples": []string{}, "exhaustive": false}, nil)
 		}
-		fmt.Printf("CHECK-ERROR: C03 worker process failed: %v\n", err)
+		fmt.Printf("CHECK-ERROR: C03 worker process failed twice and its stderr shows no repository frame: %s\n", lastLines(tail, 5))
 		os.Exit(2)
 	}
 	debug.SetGCPercent(600) // decoding produces mostly short-lived garbage; the live heap is small
@@ -1049,7 +1165,33 @@ func main() {
 	sweep := pktgen.Sweep(pktgen.Bases())
 	_, sweepDone := enum.Range(int64(len(sweep)), deadline, func(i int64) { runSweep(i, sweep[i], thorough) })
 
+	// ECDSA repetition pass (small, runs before the big enumeration)
+	type repCase struct {
+		label string
+		d     pktgen.Desc
+	}
+	var reps []repCase
+	nrep := 64
+	if thorough {
+		nrep = 512
+	}
+	for si, sg := range pktgen.Signers() {
+		if sg.Family != "ecdsa" || sg.FailsToSign {
+			continue
+		}
+		for _, b := range pktgen.Bases() {
+			d := b.Desc
+			d.Signer = si
+			if d.PaySize < 0 {
+				d.PaySize = 3
+			}
+			reps = append(reps, repCase{fmt.Sprintf("%s + signer=%s x%d signings", b.Name, sg.Name, nrep), d})
+		}
+	}
+	_, repDone := enum.Range(int64(len(reps)), deadline, func(i int64) { runEcdsaRepeat(i, reps[i].label, reps[i].d, nrep, thorough) })
+
 	done, complete := enum.Range(int64(len(cases)), deadline, func(i int64) { evalCase(sp, i, cases[i], thorough) })
+	complete = complete && repDone
 	complete = complete && sweepDone
 	flushPending()
 
@@ -1079,6 +1221,10 @@ func main() {
 		"largest_packet_bytes":                        st.maxLen,
 		"standalone_name_checks":                      st.nameChecks,
 		"violating_observations":                      nViol,
+		"ecdsa_repetition_pass": map[string]any{
+			"rule":   "every ECDSA mode of the catalog (P-224, P-256 x2 keys incl. cert/int modes, P-384, P-521) x every base shape signed N times (quick 64, thorough 512); crypto/rand-driven repetition, not enumeration: the API must never refuse (signature longer than the signer's own estimate), the packet must be well-formed, round-trip and verify",
+			"builds": st.ecdsaRepeatBuilds, "signature_lengths_observed": keysOf(st.ecdsaSigLens),
+		},
 		"outer_length_boundary_sweep": map[string]any{
 			"cases": st.sweepCases, "builds": st.sweepBuilds,
 			"targets_estimated_outer_length":                    pktgen.SweepTargets(),
